@@ -12,8 +12,11 @@ import ExoVerif.Basic.KV
   The code is mirrored *as it is*: order of checks, swallowed errors (`errorsmod.Wrap(nil, …)` is
   nil), the protobuf round trip that turns an empty byte string into nil, the symmetric
   `Difference` (kept, no longer used by the hook). After the repairs of F-11b / F-20a / F-20b / F-20c no
-  modelled operation panics any more: `halted` stays in the state (a halted chain executes nothing)
-  but nothing sets it; the pre-fix shapes live on as regression counter-examples in Props/C20.lean.
+  modelled operation of BLOCK processing panics any more: `halted` stays in the state (a halted chain
+  executes nothing) but nothing sets it; the pre-fix shapes live on as regression counter-examples in
+  Props/C20.lean. One MESSAGE handler still panics: RaiseAndResolveChallenge against a stored response
+  whose answer is absent / null (`Challenge.abiPanics`, outcome "panic": the handler unwinds, nothing is
+  written, the chain goes on).
 
   Environment (inputs of the operations, not computed here; they belong to other properties):
   current epoch numbers per identifier, the set of staking assets, the set of registered operators,
@@ -22,7 +25,10 @@ import ExoVerif.Basic.KV
   predicates (`regOk` = BLS proof of possession verifies, `blsOk` = the BLS signature over the
   response digest verifies, `respTaskId` = the task id parsed from the JSON response, `digest` =
   keccak of the response, `abiHashOk` = the ABI digest of the stored response equals the
-  challenger's hash). Addresses are the canonical strings the precompile hands to the keeper.
+  challenger's hash). `digest`, `respTaskId` and `blsOk` are functions of the SUBMITTED response bytes
+  (any byte string encoding/json accepts, not only json.Marshal's), the submitted signature and the
+  operator's registered key: `Submit.derived` in Proofs/AvsSig.lean, theorems in Props/C20Sig.lean.
+  Addresses are the canonical strings the precompile hands to the keeper.
 -/
 namespace ExoVerif.Avs
 open ExoVerif
@@ -394,11 +400,16 @@ structure Challenge where
   abiHashOk : Bool     -- ABI digest of the stored response == params.TaskResponseHash
   callerOk : Bool      -- caller address parses as bech32
   caller : String
+  /-- types.go: GetTaskResponseDigestEncodeByAbi(taskRes) panics: `Args.Pack(&h)` dereferences the nil
+  `NumberSum` of a stored response whose answer is absent or `null` (phase two accepts such a response: it
+  parses and carries the task id). The panic unwinds the message handler: nothing is written. -/
+  abiPanics : Bool := false
 deriving Repr, Inhabited
 
 /-- keeper.go: RaiseAndResolveChallenge, from "check challenge record" on -/
 def challengeCore (s : State) (c : Challenge) (task : Task) : State × String :=
-  if !c.abiHashOk then (s, "ErrInconsistentParams")
+  if c.abiPanics then (s, "panic")          -- hash, err := types.GetTaskResponseDigestEncodeByAbi(taskRes)
+  else if !c.abiHashOk then (s, "ErrInconsistentParams")
   else if KV.has s.challenges (c.op, c.taskAddr, c.id) then (s, "ErrAlreadyExists")
   else match epochOfTaskAddr s task.taskAddr with
   | none => (s, "ErrEpochNotFound")
